@@ -690,7 +690,7 @@ fn run_sdd(plan: &Plan, ctx: &mut Ctx) -> R {
 // ------------------------------------------------------------------ top-down variant
 
 fn run_topdown(plan: &Plan, ctx: &mut Ctx) -> R {
-    let n = plan.get("nvars").clamp(1, 6) as usize;
+    let n = if plan.get_or("td_big", 0) != 0 { plan.get("nvars").clamp(1, 30) as usize } else { plan.get("nvars").clamp(1, 6) as usize };
     // clauses are distributed over up to 3 CNFs, all compiled in one builder
     let mut groups: Vec<Vec<Vec<(usize, bool)>>> = vec![Vec::new(); 3];
     for (j, op) in plan.ops.iter().filter(|o| o.k == K_CLAUSE).enumerate() {
@@ -812,6 +812,7 @@ fn run_topdown(plan: &Plan, ctx: &mut Ctx) -> R {
     ctx.count("queries", nq);
     ctx.nontrivial = nq >= 2 && kinds_seen.count_ones() >= 2 && pool.iter().any(|(p, _)| !p.is_const());
     ctx.states.push(kinds_seen as u64 | 1 << 41);
+    ctx.count("topdown-store-over-8192-nodes", (b.verif_nodes().len() > 8192) as u64);
     Ok(())
 }
 
@@ -834,13 +835,20 @@ impl World for QueryWorld {
         // the BDD variant goes up to 24 variables in one run out of five (copies are then made by replaying the history)
         let wide_bdd = variant == 0 && c.below(5) == 0;
         let very_wide = wide_bdd && c.below(8) == 0;
-        let n = if variant == 2 { 1 + c.below(6) } else if very_wide { 65 + c.below(180) } else if wide_bdd { 8 + c.below(17) } else { 1 + c.below(7) };
+        // top-down variant: one run in 25 compiles formulas over 22-28 variables (stores with thousands of nodes)
+        let td_big = variant == 2 && c.below(25) == 0;
+        cfg.insert("td_big".into(), td_big as i64);
+        // BDD variant: one small run in 300 is a marathon of 70 000 - 110 000 queries on one builder, dominated by
+        // one family of calls (conditioning), so that per-call counters go round more than 2^16 times
+        let marathon = variant == 0 && !wide_bdd && c.below(300) == 0;
+        let n = if td_big { 22 + c.below(7) } else if variant == 2 { 1 + c.below(6) } else if very_wide { 65 + c.below(180) } else if wide_bdd { 8 + c.below(17) } else { 1 + c.below(7) };
         cfg.insert("nvars".into(), n as i64);
         cfg.insert("order_idx".into(), c.below(5040) as i64);
         cfg.insert("vt_shape".into(), c.below(6) as i64);
         cfg.insert("vt_seed".into(), (c.next() >> 2) as i64);
         cfg.insert("wseed".into(), (c.next() >> 2) as i64);
-        cfg.insert("table_cap".into(), *c.pick(&[0i64, 4, 16, 64, 64]));
+        // (a marathon makes ~10^5 fresh copies: small initial tables keep them cheap)
+        cfg.insert("table_cap".into(), if marathon { *c.pick(&[4i64, 16, 64]) } else { *c.pick(&[0i64, 4, 16, 64, 64]) });
         cfg.insert("place_off".into(), (p.below(4096) * 16) as i64);
         let mut rates = [0u16; NUM_SITES];
         if c.below(3) == 0 {
@@ -850,7 +858,17 @@ impl World for QueryWorld {
             rates[rsdd::verif::Site::TableGrowNow as usize] = 8;
         }
         let mut ops = Vec::new();
-        if variant == 2 {
+        if td_big {
+            // three 3-CNFs of about 0.8 n clauses each
+            for _ in 0..(2 * n + c.below(n)) {
+                let mut a = [0i64; 4];
+                for slot in a.iter_mut().take(3) {
+                    let x = o.below(n) as i64 + 1;
+                    *slot = if o.bool() { x } else { -x };
+                }
+                ops.push(Op { c: o.below(3) as u8, k: K_CLAUSE, a });
+            }
+        } else if variant == 2 {
             for _ in 0..(2 + c.below(9)) {
                 ops.push(Op { c: o.below(3) as u8, k: K_CLAUSE, a: gen_clause(&mut o, n) });
             }
@@ -867,7 +885,12 @@ impl World for QueryWorld {
             *q = if c.below(3) == 0 { 0 } else { 1 + c.below(3) as u32 };
         }
         qw[Q_WMC_REAL as usize] = qw[Q_WMC_REAL as usize].max(1);
-        let len = 4 + o.below(if very_wide { 16 } else if thorough { 70 } else { 40 });
+        if marathon {
+            qw[Q_CONDITION as usize] = 40;
+            qw[Q_CONDITION_MODEL as usize] = 5;
+            qw[Q_SMOOTH as usize] = 0;
+        }
+        let len = if marathon { 70_000 + o.below(40_000) } else { 4 + o.below(if very_wide || td_big { 16 } else if thorough { 70 } else { 40 }) };
         for _ in 0..len {
             let caller = s.below(ncallers) as u8;
             if o.below(8) == 0 {
